@@ -23,7 +23,7 @@ RULE_C09 = ('compact sketches built directly from (empty, ordered, seed hash, th
             'compared byte for byte with the Coq encoder; images produced by an independent Python encoder decoded by deserialize(bytes), wrap and deserialize(stream) and compared '
             'with the Coq decoders; non-trivial = at least 8 entries (a block) or a compressed image')
 RULE_C10 = RULE_C09 + '; plus hand-encoded serial version 1 and 2 images'
-RULE_C11 = ('every strict prefix of v3/v4 images (bytes path: exact-size heap buffer; stream path) and every preamble byte replaced by values from a fixed set; model decoder and '
+RULE_C11 = ('non-canonical short images (valid preamble of serial versions 1-4, entry count 0 or 1, every size 8..24/32) through both readers; every strict prefix of v3/v4 images (bytes path: exact-size heap buffer; stream path) and every preamble byte replaced by values from a fixed set; model decoder and '
             'implementation must agree on accept/reject and content; strict prefixes must be rejected; non-trivial = image with at least one entry')
 
 MAX_THETA = 2**63 - 1
@@ -220,6 +220,37 @@ def gen_c11(rng, tier):
                 cases.append(dict(id='tm%d_%d_%d' % (ci, ii, k), ops=ops[k:k + 60], tags=tags + ['corrupt'], expect={}))
             for k, op in enumerate(big[:(2 if tier == 'quick' else 8)]):
                 cases.append(dict(id='tb%d_%d_%d' % (ci, ii, k), ops=[op], tags=tags + ['corrupt-count-stream'], expect={}))
+    return cases + gen_short_images(rng, tier)
+
+def gen_short_images(rng, tier):
+    """non-canonical short images: valid preamble, entry count 0 or 1, every size 8..24 (32 for version 1): the model decoder's
+       accept/reject verdict (its size guards) is compared with the parser and the stream readers"""
+    imgs = []
+    for L in range(8, 25):
+        for n in (0, 1):
+            for pre in (1, 2, 3):
+                for flags in (0x1a, 0x0a, 0x1e):      # ordered, unordered, empty flag set
+                    imgs.append(([pre, 3, 3, 0, 0, flags] + le(SEED_HASH, 2) + le(n, 4) + [0] * 4 + le(12345678901, 8) + [7] * 8)[:L])
+                imgs.append(([pre, 2, 3, 0, 0, 0x0a] + le(SEED_HASH, 2) + le(n, 4) + [0] * 4 + le(MAX_THETA if pre < 3 else 12345678901, 8) + [7] * 8)[:L])
+            for pre in (1, 2):
+                for neb in (0, 1, 2):
+                    hdr = [pre, 4, 3, 5, neb, 26] + le(SEED_HASH, 2) + (le(12345678901, 8) if pre > 1 else [])
+                    imgs.append((hdr + le(n, neb) + [0xff] * 8)[:L])
+    for L in range(8, 33):
+        for n in (0, 1):
+            for theta in (MAX_THETA, 12345678901):
+                imgs.append(([3, 1, 3, 0, 0, 0, 0, 0] + le(n, 4) + [0] * 4 + le(theta, 8) + [7] * 8)[:L])
+    uniq = []; seen = set()
+    for im in imgs:
+        t = tuple(im)
+        if t not in seen:
+            seen.add(t); uniq.append(im)
+    cases = []
+    ops = []
+    for im in uniq:
+        ops.append([3, SEED_HASH] + im); ops.append([4, SEED_HASH] + im)
+    for k in range(0, len(ops), 120):
+        cases.append(dict(id='tshort%d' % (k // 120), ops=ops[k:k + 120], tags=['short-noncanonical'], expect={}))
     return cases
 
 def show_expected(c):
